@@ -228,6 +228,9 @@ def judge(label, ov, data, method, decompress, streaming, timeouts, obs):
         body = streamed if streaming else (res[4] or b"")
         if len(body) > MAXBODY:
             bad.append(("delivered-over-max_body_size", "%d body bytes delivered, max_body_size %d" % (len(body), MAXBODY)))
+        # whatever the verdict class: a response to HEAD and a 204/304 never carries a body
+        if body and (method == "HEAD" or res[1] in (204, 304)):
+            bad.append(("body-on-bodiless-response", "fetch returned code %r (method %s) with body %r" % (res[1], method, body[:30])))
         if ref[0] == "reject":
             bad.append(("accepted-rejected-stream:" + ref[1].split(" ")[0].split(":")[0],
                         "reference rejects (%s) but fetch returned %r body %r" % (ref[1], res[1], body[:30])))
